@@ -4,6 +4,7 @@ from __future__ import annotations
 
 from ..rules import dispatch, sqlplace
 from ..rules import payload, triviality, typing as typing_rules
+from ..rules import optional as optional_rules
 from .common import new_run
 
 LEVEL = "other"
@@ -38,5 +39,6 @@ def check(model, tier):
     triviality.r05_2_noop_predicates_agree(ctx, rule="R08.6")
     typing_rules.r08_5_slice_subscripts(ctx)
     payload.r10_4_who_may_attach(ctx, rule="R08.7")
+    optional_rules.r_optional_truthiness(ctx, "R08.8")
     run.assume("EngineError for iteration-engine joins and for unprocessed transfers/materializations are documented refusals")
     return run
